@@ -92,6 +92,11 @@ class Acc:
         self.viol = []
         self.nviol = 0
         self.samples = []
+        self.sets = collections.defaultdict(set)
+
+    def add_to_set(self, name, key):
+        """Distinct-count bookkeeping merged across shards (e.g. states)."""
+        self.sets[name].add(int(stable_hash(key)[:15], 16))
 
     def ev(self, key=None, nontrivial=False, n=1):
         """Record `n` evaluations; `key` identifies a distinct non-trivial case."""
@@ -123,7 +128,8 @@ class Acc:
         return dict(
             evals=self.evals, nontrivial=self.nontrivial,
             counters=self.counters, viol=self.viol,
-            nviol=self.nviol, samples=self.samples)
+            nviol=self.nviol, samples=self.samples,
+            sets=dict(self.sets))
 
 
 def exception_violation(acc, case, exc):
@@ -331,6 +337,7 @@ def main(argv=None):
     viols = []
     samples = []
     harness_errors = []
+    merged_sets = collections.defaultdict(set)
     ctx = mp.get_context('fork')
     jobs = max(1, min(args.jobs, len(shards)))
     with ctx.Pool(jobs, initializer=_init_worker, initargs=(pid,)) as pool:
@@ -342,6 +349,8 @@ def main(argv=None):
             total['nviol'] += r['nviol']
             nontrivial |= r['nontrivial']
             counters.update(r['counters'])
+            for k_, v_ in r.get('sets', {}).items():
+                merged_sets[k_] |= v_
             viols.extend(r['viol'])
             if len(samples) < 3 and r['samples']:
                 samples.append(r['samples'][0])
@@ -414,6 +423,8 @@ def main(argv=None):
         violations_unlisted=len(new),
         violations_matching_known_findings=dict(known_counts),
     )
+    for k_, v_ in merged_sets.items():
+        counters[k_] = len(v_)
     for k, v in sorted(counters.items()):
         if k in ('states', 'transitions', 'traces_validated_against_impl',
                  'programs', 'disagreements_checked'):
